@@ -11,7 +11,11 @@ EX_EDITS = [":s/o/0/<CR>", ":%s/a/A/g<CR>", ":d<CR>", ":2d<CR>", ":1,2d<CR>", ":
 BLOCK_EDITS = ["<c-v>jcX<esc>", "<c-v>jIab<esc>", "<c-v>jlAé<esc>", "<c-v>jjcnew<esc>", "<c-v>jld", "<c-v>jI<esc>", "l<c-v>jjc<esc>", "<c-v>jr#", "<c-v>j$Aend<esc>"]
 
 
-SINGLES = ["iab<BS>c<esc>", "Aab cd<c-w>x<esc>", "cwZ<BS>Y<esc>", "Rab<BS>c<esc>", "ia<left>b<esc>", "Aé<left><left>y<esc>", "ox<up>y<esc>", "rx", "ry", "rZ", "x", "~", "cwQ<esc>", "clé<esc>", "oab<esc>", "Oz<esc>", "ix<esc>", "aé<esc>", "Rqq<esc>", "dw", "J", "ccnew<esc>", "s!<esc>", "p", "yl"]
+SINGLES = ["ifoo bar<c-w>baz<esc>", "Ax y<c-w><c-w>z<esc>", "ohello<BS><BS><esc>", "iab<BS>c<esc>", "Aab cd<c-w>x<esc>", "cwZ<BS>Y<esc>", "Rab<BS>c<esc>", "ia<left>b<esc>", "Aé<left><left>y<esc>", "ox<up>y<esc>", "rx", "ry", "rZ", "x", "~", "cwQ<esc>", "clé<esc>", "oab<esc>", "Oz<esc>", "ix<esc>", "aé<esc>", "Rqq<esc>", "dw", "J", "ccnew<esc>", "s!<esc>", "p", "yl"]
+
+
+ONE_SESSION_KEYS = {"iab<BS>c<esc>", "Aab cd<c-w>x<esc>", "cwZ<BS>Y<esc>", "Rab<BS>c<esc>", "oab<esc>", "Oz<esc>", "ix<esc>", "aé<esc>", "Rqq<esc>",
+                    "cwQ<esc>", "clé<esc>", "ccnew<esc>", "s!<esc>", "ifoo bar<c-w>baz<esc>", "Ax y<c-w><c-w>z<esc>", "ohello<BS><BS><esc>"}
 
 
 def gen_history(rng):
@@ -19,7 +23,13 @@ def gen_history(rng):
     keys = []
     for _ in range(n):
         r = rng.random()
-        if r < 0.12:
+        if r < 0.04:
+            # a session that the end of the key string closes, repeated at once, then undone: the repeat is a change of its own
+            keys.append(rng.choice(["ifoo", "Axy", "oz", "cwQ", "ab<BS>c"]))
+            keys += [".", "u"]
+            if rng.random() < 0.5:
+                keys.append(rng.choice(["u", "<c-r>"]))
+        elif r < 0.12:
             # neighbouring changes with nothing, or only motions, between them: each is undone alone
             keys.append(rng.choice(SINGLES))
             for _ in range(rng.randint(0, 2)):
@@ -120,6 +130,7 @@ def run(chk, binary):
                     cur_text = c["after"]
             if not ok:
                 break
+            ops.append((3, None, [], 0))          # the end of the key string: set_normal_mode closes an open record
         if not ok:
             dist["err_steps"] += 1
             continue
@@ -142,7 +153,10 @@ def run(chk, binary):
             # nothing but typed characters between the first and the last change of the session (a motion or any other
             # key in between legitimately starts a new undo step)
             one_session = sess[0] in (1, 2) and all(k == 2 for k in sess[1:]) and all(c["continues_insert"] for c in cs[first + 1:last + 1])
-            if not (one_plain or one_session):
+            # these keys are one insert session by what they say (opening command, typed text, <BS>, <c-w>, <esc>), whatever
+            # the trace calls their commands
+            by_syntax = keys[i - 1] in ONE_SESSION_KEYS or keys[i - 1] == "."      # a repeat is one change as well (a count on the repeat of a session is C20's known class)
+            if not (one_plain or one_session or by_syntax):
                 continue
             before_key = steps[i - 2]["buf"] if i >= 2 else text
             dist["u_after_single_change"] = dist.get("u_after_single_change", 0) + 1
